@@ -23,6 +23,8 @@ T = {
          "The lift of the cover theorem through the whole attribute fold (directives and v-model steps in between) is not yet a theorem; the oracle judges hints against the props the real call passes.", "7 C13"),
  "C14": ("Theorems about the Lean model of `serde_json::from_str::<Options>` (parseOptions): `{}` = no configuration = the documented defaults; setting one field never changes another; unknown keys are ignored whatever their value; a configuration that never mentions a key leaves that option at its default (induction over the entries); an invalid pattern anywhere in the list is rejected when the configuration is read. Non-interference theorems at the level of one element: transformOn only matters for on/nativeOn attributes (never for other attributes or spreads), enableObjectSlots only when the sole child is an identifier or a call, customElementPatterns only for tags a pattern matches. Unit correspondence with the real serde derive on thousands of JSON spellings; PAIR ORACLE on the real code: each module under a random base setting of ALL options and with each option flipped must give identical output when it does not use the governed feature.",
          "JSON text parsing is trusted (Python json vs serde_json); the non-interference theorems are local (one attribute / one child list), their lift through the whole traversal is covered by the pair oracle only; the feature classification of inputs is syntactic and conservative.", "7 C14"),
+ "C15": ("Theorems: without any pragma the factory is the createVNode imported from 'vue'; a comment annotation takes precedence over the option and imports nothing; the option names the factory otherwise; every fragment is a call of exactly the pragma identifier; a later annotated position overrides an earlier one and un-annotated positions change nothing; and, for ALL comment texts, the scanner theorems: no `@jsx` at the start of the (trimmed, optionally starred) text -> nothing; `@jsx` directly followed by a non-blank (`@jsxImportSource`, `@jsxRuntime`, `@jsxFrag`) -> nothing; bare `@jsx` -> nothing; `@jsx`, blank, name -> the name only; whatever is extracted is one non-empty word. Oracle on the real output: one call of the effective factory per lowered element/fragment, createVNode imported once (or not at all with a pragma), a single generated 'vue' import.",
+         "Which source positions carry leading comments is taken from SWC (module start and each top-level item), as the code does; multi-line JSDoc with the tag on an inner line is unspecified. The element-level callee theorem is proved for fragments; for elements it is covered by the oracle and the correspondence.", "7 C15"),
 }
 
 def main():
